@@ -23,7 +23,8 @@ PROPS_MODULES = ['CfVerif.Props.C12']
 DRIVER = 'Driver/C12.lean'
 REQUIRED_THEOREMS = ['CfVerif.C12.refused_if_too_big', 'CfVerif.C12.upload_covers_once', 'CfVerif.C12.flash_exact',
                      'CfVerif.C12.write_flash_attempts_bounded', 'CfVerif.C12.write_flash_ok_only_if_acked', 'CfVerif.C12.abort_on_failure',
-                     'CfVerif.C12.ref_attempts_le', 'CfVerif.C12.ref_unanswered', 'CfVerif.C12.ref_answered_at_once',
+                     'CfVerif.C12.geometry_from_own_connection', 'CfVerif.C12.flash_uses_geometry_of_this_connection', 'CfVerif.C12.stale_cache_counterexample',
+                     'CfVerif.C12.gen_loader_state', 'CfVerif.C12.gen_update_info', 'CfVerif.C12.gen_update_info_tests', 'CfVerif.C12.ref_attempts_le', 'CfVerif.C12.ref_unanswered', 'CfVerif.C12.ref_answered_at_once',
                      'CfVerif.C12.gen_upload', 'CfVerif.C12.gen_upload_room', 'CfVerif.C12.gen_write_flash', 'CfVerif.C12.gen_retry_test',
                      'CfVerif.C12.gen_internal_flash', 'CfVerif.C12.gen_constants']
 TRUSTED = ['harness/corr/c12.py: extractor (AST -> Gen/C12.lean), fake link, Python twin of the Spec target, canonicalisers',
@@ -37,8 +38,11 @@ ASSUMPTIONS = ['a positive write-flash reply (header 0xFF, (id, 0x18), status 1)
                'has returned; the protocol has no sequence numbers, so a reply delayed across calls could acknowledge the wrong command); no reply is in flight when flashing starts',
                'geometry as _update_info can produce it (16-bit fields, page_size > 0, buffer_pages > 0), target id a byte, image length >= 1, page_override None or >= 0',
                'one target on the link (commands addressed to other target ids are ignored by the modelled target)',
-               'flash() orchestration (zip/manifest, soft-device, deck flashing), read_flash and the reset/info handshakes are outside the model; '
-               '_update_info is exercised only by the correspondence (real geometries)']
+               'get-info replies on a link are genuine (only the connected copter answers (id, 0x10) packets; it may lose, delay or interleave unrelated packets); '
+               'a copter reports a fixed geometry per target; one link per copter at a time',
+               'flash() orchestration (zip/manifest, soft-device upgrade, deck flashing), read_flash, reset handshakes and scan are outside the model; '
+               'start_bootloader(cold) / flash(.bin) / close are compared through their expansion into the modelled loader operations',
+               'KNOWN (D26): a loader object re-connected to a copter with a different nRF51 geometry answers request_info_update from its cache']
 RULE = ('cases = (flash) geometry x image length x outcome script x stale receive queue x override x terminate/progress callbacks: every length 0..2 buffer-fulls+ for '
         'small adversarial geometries (page 1..51, buffers 1..5), lengths around every page/buffer/capacity multiple otherwise, the real nRF51/STM32 geometries through the '
         'real getInfo handler; (upload) every buffer length 0..79 + multiples of 25 and 16-bit address overflow; (wflash) EVERY script of length <= 3 over 8 outcome kinds, '
@@ -250,6 +254,95 @@ def extract(ctx):
         X.expect(len(holder) == 1, '_internal_flash: write_flash result is not tested with `if not ...`')
         fails.append('raise' if isinstance(holder[0].body[-1], ast.Raise) and not holder[0].orelse else 'continue')
     g.strings('flushFailAction', fails)
+    # ---- the geometry cache of the Cloader object: __init__, _update_info, request_info_update, check_link_and_get_info ----
+    cl = X.find(X.parse(CLOAD), 'Cloader')
+    class_level = sorted(ast.unparse(t) for n in cl.body if isinstance(n, (ast.Assign, ast.AnnAssign))
+                         for t in (n.targets if isinstance(n, ast.Assign) else [n.target]))
+    g.strings('cloaderClassAttrs', class_level)          # mutable state must not live on the class (shared by all loaders)
+    init = X.find(cl, '__init__')
+    inits = {ast.unparse(n.targets[0]): ast.unparse(n.value) for n in init.body if isinstance(n, ast.Assign) and len(n.targets) == 1}
+    g.strings('cloaderInit', ['%s = %s' % (k, inits.get(k, '<missing>')) for k in ('self.link', 'self.targets', 'self.protocol_version')])
+    # every function of the module that rebinds / clears `targets` (only __init__ may)
+    rebind = []
+    for fn in [n for n in ast.walk(X.parse(CLOAD)) if isinstance(n, ast.FunctionDef)]:
+        for n in ast.walk(fn):
+            tg = []
+            if isinstance(n, ast.Assign):
+                tg = n.targets
+            elif isinstance(n, (ast.AugAssign, ast.AnnAssign)):
+                tg = [n.target]
+            elif isinstance(n, ast.Delete):
+                tg = n.targets
+            for t in tg:
+                if ast.unparse(t) in ('self.targets', 'Cloader.targets', 'cls.targets'):
+                    rebind.append(fn.name)
+            if isinstance(n, ast.Call) and ast.unparse(n.func) in ('self.targets.clear', 'self.targets.pop', 'self.targets.update'):
+                rebind.append(fn.name + ':' + ast.unparse(n.func))
+    g.strings('targetsRebinds', sorted(rebind))
+    ui = X.find(cl, '_update_info')
+    X.expect([a.arg for a in ui.args.args] == ['self', 'target_id'], '_update_info signature changed')
+    ia = X.int_assigns(ui)
+    X.expect('timeout' in ia, '_update_info: timeout = <int literal> not found')
+    g.nat('infoTimeout', ia['timeout'])
+    loop = _one([n for n in ast.walk(ui) if isinstance(n, ast.While)], 'while loop in _update_info')
+    g.string('infoLoopTest', ast.unparse(loop.test))
+    rc = _one(_calls(ui, 'link.receive_packet'), 'receive_packet in _update_info')
+    try:
+        w = ast.literal_eval(rc.args[0])
+    except Exception:
+        raise ExtractError('_update_info: receive timeout is not a literal')
+    X.expect(isinstance(w, int) and not isinstance(w, bool) and w > 0, '_update_info: receive timeout is not a positive int literal')
+    g.nat('infoRecvWait', w)
+    g.strings('infoSends', [ast.unparse(c) for c in _calls(ui, 'link.send_packet')])
+    dat = [ast.unparse(n.value) for n in ast.walk(ui) if isinstance(n, ast.Assign) and ast.unparse(n.targets[0]) == 'pk.data']
+    g.strings('infoRequestData', dat)
+    X.expect(len(dat) == 1, '_update_info: request data assignment changed')
+    req = [n.value for n in ast.walk(ui) if isinstance(n, ast.Assign) and ast.unparse(n.targets[0]) == 'pk.data'][0]
+    X.expect(isinstance(req, ast.Tuple) and len(req.elts) == 2 and ast.unparse(req.elts[0]) == 'target_id', '_update_info: request is not (target_id, <cmd>)')
+    try:
+        g.nat('infoCmd', ast.literal_eval(req.elts[1]))
+    except Exception:
+        raise ExtractError('_update_info: command byte is not a literal')
+    ifs = sorted([n for n in ast.walk(ui) if isinstance(n, ast.If)], key=lambda n: n.lineno)
+    g.strings('infoIfTests', [ast.unparse(n.test) for n in ifs])
+    sc = X.struct_calls(ui)
+    X.expect(len(sc) >= 3 and sc[0]['fn'] == 'unpack' and sc[1]['fn'] == 'unpack' and sc[1]['fmt'], '_update_info: unpack calls changed')
+    g.string('infoMatchFmt', sc[0]['fmt'] or '?')
+    g.strings('infoMatchArgs', sc[0]['args'])
+    g.string('infoFmt', sc[1]['fmt'])
+    g.strings('infoArgs', sc[1]['args'])
+    g.strings('infoCpuidArgs', sc[2]['args'])
+    g.string('infoCpuidFmt', sc[2]['fmt_src'])
+    fields = {}
+    for n in ast.walk(ui):
+        if isinstance(n, ast.Assign) and ast.unparse(n.targets[0]).startswith('self.targets[target_id].'):
+            fields[ast.unparse(n.targets[0]).split('.')[-1]] = ast.unparse(n.value)
+    g.strings('infoFields', ['%s = %s' % (k, fields.get(k, '<missing>')) for k in ('addr', 'page_size', 'buffer_pages', 'flash_pages', 'start_page', 'protocol_version')])
+    g.strings('infoReturns', [ast.unparse(n.value) if n.value else 'None' for n in sorted((m for m in ast.walk(ui) if isinstance(m, ast.Return)), key=lambda m: m.lineno)])
+    um = X.find(cl, '_update_mapping')
+    g.strings('mappingIO', [ast.unparse(c) for c in sorted(_calls(um, 'link.send_packet') + _calls(um, 'link.receive_packet'), key=lambda c: c.lineno)])
+    md = [n.value for n in ast.walk(um) if isinstance(n, ast.Assign) and ast.unparse(n.targets[0]) == 'pk.data']
+    X.expect(len(md) == 1 and isinstance(md[0], ast.Tuple) and len(md[0].elts) == 2, '_update_mapping: request data changed')
+    try:
+        g.nat('mappingCmd', ast.literal_eval(md[0].elts[1]))
+    except Exception:
+        raise ExtractError('_update_mapping: command byte is not a literal')
+    g.strings('mappingIfTests', [ast.unparse(n.test) for n in sorted((m for m in ast.walk(um) if isinstance(m, ast.If)), key=lambda m: m.lineno)])
+    ri = X.find(cl, 'request_info_update')
+    g.strings('requestInfoBody', [ast.unparse(s_) for s_ in ri.body if not (isinstance(s_, ast.Expr) and isinstance(s_.value, ast.Constant))])
+    ck = X.find(cl, 'check_link_and_get_info')
+    g.strings('checkLinkTests', [ast.unparse(n.test) for n in sorted((m for m in ast.walk(ck) if isinstance(m, ast.If)), key=lambda m: m.lineno)])
+    g.strings('checkLinkDefaults', [ast.unparse(d) for d in ck.args.defaults])
+    ob = X.find(cl, 'open_bootloader_uri')
+    g.strings('openLinkAssigns', sorted({ast.unparse(n.targets[0]) for n in ast.walk(ob) if isinstance(n, ast.Assign)}))
+    tt = X.class_consts('cflib/bootloader/boottypes.py', 'TargetTypes')
+    g.nat('targetSTM32', tt['STM32'])
+    g.nat('targetNRF51', tt['NRF51'])
+    bv = X.class_consts('cflib/bootloader/boottypes.py', 'BootVersion')
+    g.nat('protoCF2', bv['CF2_PROTO_VER'])
+    # the geometry _internal_flash uses: the cache entry of the loader object it was called on
+    tinfo = [ast.unparse(n.value) for n in ast.walk(fl) if isinstance(n, ast.Assign) and ast.unparse(n.targets[0]) == 'target_info']
+    g.strings('flashTargetInfo', tinfo)
     return {'C12.lean': g.render()}
 
 
@@ -743,6 +836,7 @@ def correspond(ctx):
         ctx.case(desc, key)
         if real != model:
             ctx.disagree(kind, line[:600], model[:600], real[:600])
+    correspond_histories(ctx)
 
 
 # ------------------------------------------------------------------------------------------------------
@@ -891,3 +985,580 @@ def search(ctx):
                                     'page_override': c['override'], 'image': bytes(c['image']).hex(), 'script': [fmt_outcome(o) for o in c['script']],
                                     'inbox': ['%d:%s' % (h, d.hex()) for h, d in c['inbox']], 'terminate_cb': c['term'], 'progress_cb': c['progress']},
                         detail=detail, result=res)
+    search_histories(ctx, seen)
+
+
+# ------------------------------------------------------------------------------------------------------
+# histories: several loader objects / connections / copters (geometry cache of the Cloader object)
+# ------------------------------------------------------------------------------------------------------
+class CopterTwin:
+    """Python twin of Spec `Copter` / `copterPeer`: targets {tid: geometry + Twin memory}, get-info script."""
+
+    def __init__(self, ci, seed, proto, info_script, targets):
+        self.ci = ci
+        self.proto = proto
+        self.info_script = list(info_script)
+        self.late = []
+        self.geom = {}
+        self.mem = {}
+        self.order = []
+        for (tid, ps, bp, fp, sp) in targets:
+            if tid in self.geom:
+                continue
+            self.order.append(tid)
+            self.geom[tid] = (ps, bp, fp, sp)
+            self.mem[tid] = Twin(tid, seed + tid + 17 * ci, [])
+        self.holder = None
+
+    def info_pkt(self, tid):
+        import struct as _s
+        ps, bp, fp, sp = self.geom[tid]
+        return (0xFF, _s.pack('<BBHHHH', tid, 0x10, ps, bp, fp, sp) + bytes(range(12)) + (bytes([self.proto]) if self.proto is not None else b''))
+
+    def on_send(self, hdr, d):
+        if hdr != 0xFF or len(d) < 2 or d[0] not in self.geom:
+            return []
+        tid = d[0]
+        if d[1] == 0x10:
+            if not self.info_script:
+                return [self.info_pkt(tid)]
+            o = self.info_script.pop(0)
+            if o[1] is None:
+                return []
+            if o[2]:
+                self.late.append(o[1])
+                return []
+            return [o[1]]
+        return self.mem[tid].on_send(hdr, d)
+
+    def on_wait_done(self):
+        r, self.late = self.late, []
+        return r
+
+
+class VClock:
+    """virtual time for the bootloader modules only (module-scoped stand-in for `time`)"""
+
+    def __init__(self):
+        self.now = 1000.0
+
+    def time(self):
+        return self.now
+
+    def sleep(self, s):
+        self.now += s
+
+
+class Air:
+    def __init__(self, copters, clock):
+        self.copters = copters
+        self.current = None        # the copter a new link connects to
+        self.clock = clock
+        self.links = []
+
+
+def make_driver_class(air):
+    class FakeDriver:
+        """a CRTP link driver (the boundary object cflib.crtp.get_link_driver instantiates)"""
+
+        def __init__(self):
+            self.copter = None
+            self.inbox = []
+            self.sent = []
+            self.uri = ''
+            self.closed = False
+
+        def connect(self, uri, link_quality_callback=None, link_error_callback=None):
+            self.uri = uri.split('?')[0]
+            self.copter = air.copters[air.current] if air.current is not None else None
+            if self.copter is not None and not uri.startswith('radio://0/80/'):
+                self.copter.late = []
+            air.links.append(self)
+
+        def send_packet(self, pk):
+            d = bytes(pk.data)
+            self.sent.append((pk.header, d))
+            if self.copter is not None:
+                self.inbox.extend(self.copter.on_send(pk.header, d))
+
+        def receive_packet(self, wait=0):
+            from cflib.crtp.crtpstack import CRTPPacket
+            r = self.inbox.pop(0) if self.inbox else None
+            if wait != 0 and self.copter is not None:
+                self.inbox.extend(self.copter.on_wait_done())
+            if r is None:
+                if wait > 0:
+                    air.clock.sleep(wait)
+                return None
+            return CRTPPacket(r[0], bytearray(r[1]))
+
+        def scan_selected(self, uris):
+            return [uris[-1]] if self.copter is not None else []
+
+        def close(self):
+            self.closed = True
+    return FakeDriver
+
+
+class fake_radio:
+    """context: cflib.crtp hands out FakeDriver links to the current copter; bootloader modules see virtual time"""
+
+    def __init__(self, air):
+        self.air = air
+
+    def __enter__(self):
+        import cflib.crtp
+        import cflib.bootloader as bmod
+        import cflib.bootloader.cloader as cmod
+        self.mods = (cflib.crtp, bmod, cmod)
+        self.saved = (cflib.crtp.CLASSES, bmod.time, cmod.time)
+        cflib.crtp.CLASSES = [make_driver_class(self.air)]
+        bmod.time = self.air.clock
+        cmod.time = self.air.clock
+        return self
+
+    def __exit__(self, *a):
+        crtp, bmod, cmod = self.mods
+        crtp.CLASSES, bmod.time, cmod.time = self.saved
+
+
+def run_real_history(h):
+    """h: {'seed', 'copters': [{'proto', 'info': [...], 'targets': [(tid, ps, bp, fp, sp)]}], 'ops': [...]}
+    ops (direct Cloader API):  ('new',) ('open', k, c) ('close', k) ('update', k, tid) ('request', k, tid) ('check', k)
+                               ('flash', k, key, image, override)
+    ops (public Bootloader API): ('bl_new',) ('bl_start', k, c) ('bl_flash', k, image) ('bl_close', k)
+    Returns per-op [(result string, packets)], the copter twins, and for each flash the copter it went to."""
+    _quiet()
+    import tempfile
+    from cflib.bootloader import Bootloader, FlashArtifact, Target as ATarget
+    from cflib.bootloader.cloader import Cloader
+    clock = VClock()
+    copters = [CopterTwin(i, h['seed'], c['proto'], c['info'], c['targets']) for i, c in enumerate(h['copters'])]
+    air = Air(copters, clock)
+    loaders = []       # ('cl', Cloader) | ('bl', Bootloader)
+    conn = []
+    out = []
+    flashes = []
+
+    def cl_of(k):
+        kind, o = loaders[k]
+        return o if kind == 'cl' else o._cload
+
+    def sent_now(k):
+        ln = cl_of(k).link
+        return list(ln.sent) if ln is not None and hasattr(ln, 'sent') else []
+
+    with fake_radio(air), contextlib.redirect_stdout(io.StringIO()):
+        for op in h['ops']:
+            k = op[1] if len(op) > 1 else None
+            before = [] if op[0] in ('new', 'bl_new', 'open') else sent_now(k)
+            link_before = None if k is None or op[0] in ('new', 'bl_new') else cl_of(k).link
+            try:
+                if op[0] == 'new':
+                    loaders.append(('cl', Cloader(None)))
+                    conn.append(None)
+                    res = 'ok'
+                elif op[0] == 'bl_new':
+                    loaders.append(('bl', Bootloader(None)))
+                    conn.append(None)
+                    res = 'ok'
+                elif op[0] == 'open':
+                    air.current = op[2]
+                    cl_of(k).open_bootloader_uri('radio://0/0/2M/E7E7E7E7E7')
+                    conn[k] = op[2]
+                    res = 'ok'
+                elif op[0] == 'close':
+                    c = cl_of(k)
+                    c.close()
+                    c.link = None
+                    conn[k] = None
+                    res = 'ok'
+                elif op[0] == 'update':
+                    res = 'true' if cl_of(k)._update_info(op[2]) else 'false'
+                elif op[0] == 'request':
+                    t = cl_of(k).request_info_update(op[2])
+                    res = 'geom:%d,%d,%d,%d,%d' % (t.addr, t.page_size, t.buffer_pages, t.flash_pages, t.start_page)
+                elif op[0] == 'check':
+                    res = 'true' if cl_of(k).check_link_and_get_info() else 'false'
+                elif op[0] == 'flash':
+                    kind, o = loaders[k]
+                    bl = o if kind == 'bl' else None
+                    if bl is None:
+                        bl = Bootloader(None)
+                        bl._cload = o
+                    flashes.append({'op': len(out), 'loader': k, 'copter': conn[k], 'key': op[2], 'image': bytes(op[3]), 'override': op[4]})
+                    res = flash_result(bl, lambda: bl._internal_flash(FlashArtifact(bytes(op[3]), ATarget('cf2', TARGET_NAMES[op[2]], 'fw', [], []), None), 1, 1, op[4]))
+                elif op[0] == 'bl_start':
+                    air.current = op[2]
+                    had_link = bool(cl_of(k).link)
+                    ok = loaders[k][1].start_bootloader(warm_boot=False)
+                    if not had_link:
+                        conn[k] = op[2]
+                    res = 'true' if ok else 'false'
+                elif op[0] == 'bl_flash':
+                    bl = loaders[k][1]
+                    fd, path = tempfile.mkstemp(suffix='.bin')
+                    os.write(fd, bytes(op[2]))
+                    os.close(fd)
+                    flashes.append({'op': len(out), 'loader': k, 'copter': conn[k], 'key': 0xFE, 'image': bytes(op[2]), 'override': None})
+                    try:
+                        res = flash_result(bl, lambda: bl.flash(path, [ATarget('cf2', 'nrf51', 'fw', [], [])]))
+                    finally:
+                        os.unlink(path)
+                elif op[0] == 'bl_close':
+                    loaders[k][1].close()
+                    conn[k] = None
+                    res = 'ok'
+                else:
+                    raise AssertionError(op)
+            except Exception as e:
+                res = 'err:' + exc_enum(e)
+            if k is None or op[0] in ('open', 'close', 'bl_close'):
+                pk = []
+            else:
+                ln = cl_of(k).link
+                if ln is link_before:
+                    pk = sent_now(k)[len(before):]
+                else:           # the operation replaced the link (bl_start): packets of the old link's tail + the new link
+                    pk = (list(link_before.sent)[len(before):] if link_before is not None and hasattr(link_before, 'sent') else []) + sent_now(k)
+            out.append((res, pk))
+    return out, copters, flashes
+
+
+def flash_result(bl, thunk):
+    try:
+        thunk()
+        return 'done'
+    except Exception as e:
+        if type(e) is Exception and e.args == ('Not enough space to flash the image file',):
+            return 'nospace'
+        if type(e) is Exception and e.args == ('Flashing terminated',):
+            return 'terminated'
+        if type(e) is Exception and e.args == ():
+            return 'failed:%d' % bl._cload.error_code
+        if type(e) is Exception and e.args and 'soft device' in str(e.args[0]):
+            return 'err:unknown-softdevice'
+        return 'err:' + exc_enum(e)
+
+
+def lean_ops(h):
+    """the history in the Lean driver's primitive operations (public Bootloader calls are expanded as the code does them:
+    start_bootloader(cold) with no link = open link, check_link_and_get_info(), then request_info_update(NRF51) if CF2;
+    flash(.bin for nrf51 fw) = _get_current_nrf51_sd_version (needs the cached nRF51 entry, start page 88/108) + _internal_flash)"""
+    ops = []
+    expand = []          # index of the primitive op whose result/packets represent each original op (list of indices)
+    linked = {}
+    nload = 0
+    for op in h['ops']:
+        if op[0] in ('new', 'bl_new'):
+            ops.append('n')
+            expand.append([len(ops) - 1])
+            linked[nload] = False
+            nload += 1
+        elif op[0] == 'open':
+            ops.append('o%d:%d' % (op[1], op[2]))
+            linked[op[1]] = True
+            expand.append([len(ops) - 1])
+        elif op[0] in ('close', 'bl_close'):
+            ops.append('x%d' % op[1])
+            linked[op[1]] = False
+            expand.append([len(ops) - 1])
+        elif op[0] == 'update':
+            ops.append('u%d:%d' % (op[1], op[2]))
+            expand.append([len(ops) - 1])
+        elif op[0] == 'request':
+            ops.append('r%d:%d' % (op[1], op[2]))
+            expand.append([len(ops) - 1])
+        elif op[0] == 'check':
+            ops.append('c%d' % op[1])
+            expand.append([len(ops) - 1])
+        elif op[0] == 'flash':
+            ops.append('f%d:%d:%s:%s' % (op[1], op[2], hexs(op[3]), '-' if op[4] is None else str(op[4])))
+            expand.append([len(ops) - 1])
+        elif op[0] == 'bl_start':
+            idx = []
+            if not linked.get(op[1]):
+                ops.append('o%d:%d' % (op[1], op[2]))
+                ops.append('c%d' % op[1])
+                idx += [len(ops) - 2, len(ops) - 1]
+                linked[op[1]] = True
+            ops.append('r%d:254' % op[1])
+            idx.append(len(ops) - 1)
+            expand.append(idx)
+        elif op[0] == 'bl_flash':
+            ops.append('f%d:254:%s:-' % (op[1], hexs(op[2])))
+            expand.append([len(ops) - 1])
+    return ops, expand
+
+
+def hist_line(h, probes):
+    cop = ';'.join('%s/%s/%s' % ('-' if c['proto'] is None else str(c['proto']), ','.join(fmt_outcome(o) for o in c['info']) or '-',
+                                 ','.join('%d:%d:%d:%d:%d' % t for t in c['targets'])) for c in h['copters'])
+    ops, expand = lean_ops(h)
+    return 'hist %d %d %s %s %s' % (h.get('fuel', 200), h['seed'], cop, ';'.join(ops) or '-', ','.join('%d:%d:%d' % p for p in probes) or '-'), expand
+
+
+def hist_probes(h, copters, flashes):
+    pr = set()
+    for ci, c in enumerate(copters):
+        for tid in c.order:
+            ps, bp, fp, sp = c.geom[tid]
+            if ps > 64:
+                pr.update((ci, tid, q) for q in list(c.mem[tid].flashpg)[:6])
+                pr.add((ci, tid, sp))
+            else:
+                pr.update((ci, tid, q) for q in c.mem[tid].flashpg)
+                pr.update((ci, tid, q) for q in (sp, sp + 1, max(0, sp - 1), fp))
+    return sorted(pr)
+
+
+def real_hist_reply(h, public):
+    out, copters, flashes = run_real_history(h)
+    probes = hist_probes(h, copters, flashes)
+    line, expand = hist_line(h, probes)
+    # canonical reply in the Lean driver's format
+    parts = []
+    for (res, pk), idx, op in zip(out, expand, h['ops']):
+        if op[0] == 'bl_start':
+            # the public call's packets are those of its primitive operations; its result is compared as a whole
+            parts.append(('bl_start', res, pk))
+        else:
+            parts.append((op[0], res, pk))
+    fl = ';'.join('%d:%d:%d:%s' % (ci, tid, q, hexs(copters[ci].mem[tid].flash_page(q, copters[ci].geom[tid][0]))) for (ci, tid, q) in probes) or '-'
+    return line, expand, parts, fl, copters, flashes
+
+
+def compare_hist(model_reply, expand, parts, fl):
+    """model reply vs real: per original op the concatenated packets of its primitive ops and the (last) result"""
+    try:
+        body, mfl = model_reply.rsplit(' flash=', 1)
+        prim = [x.split('@', 1) for x in body.split('|')] if body else []
+    except ValueError:
+        return 'unparsable model reply'
+    if mfl != fl:
+        return 'flash probes differ'
+    for (kind, res, pk), idx in zip(parts, expand):
+        mres = prim[idx[-1]][0]
+        mpk = ';'.join(p[1] for p in (prim[i] for i in idx) if p[1] != '-') or '-'
+        if kind == 'bl_start':
+            # start_bootloader returns True iff check_link_and_get_info succeeded (no link before) / True (link existed); then caches nRF51
+            prim_res = [prim[i][0] for i in idx]
+            ok = (len(idx) == 1) or prim_res[1] == 'true'
+            want = 'true' if ok else 'false'
+            if prim_res[-1].startswith('err:') and ok:
+                want = prim_res[-1]
+            if res != want:
+                return 'bl_start result %s vs model %s' % (res, prim_res)
+        elif kind == 'bl_flash':
+            if mres == 'err:key_error' and res == 'err:key_error':
+                pass
+            elif res == 'err:unknown-softdevice':
+                continue        # raised by the orchestration before _internal_flash: nothing to compare
+            elif res != mres:
+                return 'bl_flash result %s vs model %s' % (res, mres)
+        elif res != mres:
+            return '%s result %s vs model %s' % (kind, res, mres)
+        if show_pkts(pk) != mpk and not (kind == 'bl_flash' and res == 'err:unknown-softdevice'):
+            return '%s packets differ: real %s model %s' % (kind, show_pkts(pk)[:200], mpk[:200])
+    return None
+
+
+def small_copter(rng, nrf_sp=None, public=False):
+    ps = rng.choice([4, 8, 16, 25, 32]) if not public else rng.choice([16, 32])
+    stm = (0xFF, ps, rng.randrange(1, 4), rng.randrange(150, 400) if public else rng.randrange(12, 60), rng.randrange(1, 8))
+    nsp = nrf_sp if nrf_sp is not None else rng.randrange(2, 20)
+    nrf = (0xFE, ps if rng.random() < 0.7 else rng.choice([4, 8, 16]), 1 if rng.random() < 0.7 else 2, nsp + rng.randrange(4, 30) if not public else rng.choice([200, 232]), nsp)
+    return {'proto': 0x10 if (public or rng.random() < 0.8) else rng.choice([None, 0x10, 1]), 'info': [], 'targets': [stm, nrf]}
+
+
+def info_outcome(rng, cop, tid):
+    """what can happen to a get-info transmission: lost, the genuine reply now/late, unrelated packets, a truncated reply"""
+    import struct as _s
+    t = [x for x in cop['targets'] if x[0] == tid][0]
+    gen = (0xFF, _s.pack('<BBHHHH', tid, 0x10, t[1], t[2], t[3], t[4]) + bytes(range(12)) + (bytes([cop['proto']]) if cop['proto'] is not None else b''))
+    r = rng.random()
+    if r < 0.3:
+        return (False, None, False)
+    if r < 0.55:
+        return (True, gen, rng.random() < 0.5)
+    if r < 0.7:
+        return (True, (0xFF, bytes([tid, 0x18, 1, 0])), rng.random() < 0.5)          # a stray flash-write reply
+    if r < 0.8:
+        return (True, (0x0C | (rng.randrange(15) << 4), bytes([tid, 0x10]) + bytes(20)), False)   # other port
+    if r < 0.9:
+        return (True, (0xFF, gen[1][:rng.choice([1, 5, 9, 15, 21])]), False)          # truncated: struct.error
+    return (True, (0xFF, bytes([7, 0x10]) + gen[1][2:]), False)                       # an id that is no target of this copter
+
+
+def gen_histories(ctx):
+    rng = ctx.rng
+    thorough = ctx.tier == 'thorough'
+    hs = []
+
+    def img(n):
+        return bytes(rng.randrange(256) for _ in range(n))
+    # (a) several loader objects, one per connection, copters with different geometry (direct Cloader API)
+    for _ in range(60 if thorough else 14):
+        cops = [small_copter(rng) for _ in range(rng.choice([2, 2, 3]))]
+        ops, nl = [], 0
+        order = list(range(len(cops)))
+        rng.shuffle(order)
+        overlap = rng.random() < 0.4
+        opened = []
+        for c in order + ([rng.choice(order)] if rng.random() < 0.5 else []):
+            if any(oc == c for _, oc in opened):
+                continue
+            ops.append(('new',))
+            k = nl
+            nl += 1
+            ops += [('open', k, c), ('check', k)]
+            key = rng.choice([0xFE, 0xFE, 0xFF])
+            if key == 0xFE:
+                ops.append(('request', k, 0xFE) if rng.random() < 0.8 else ('update', k, 0xFE))
+            t = [x for x in cops[c]['targets'] if x[0] == key][0]
+            ln = rng.choice([1, t[1], t[1] + 1, 2 * t[1] * t[2] + 1, 3 * t[1]])
+            ops.append(('flash', k, key, img(ln), None))
+            if overlap:
+                opened.append((k, c))
+            else:
+                ops.append(('close', k))
+        hs.append(('multi-loader', {'seed': rng.randrange(500), 'copters': cops, 'ops': ops}))
+    # (b) the public path: Bootloader().start_bootloader(cold) + flash(.bin -> nrf51) + close, one object per copter,
+    #     nRF51 with the s110 / s130 layouts (start page 88 / 108)
+    for _ in range(20 if thorough else 5):
+        cops = [small_copter(rng, nrf_sp=sp, public=True) for sp in rng.choice([(88, 108), (108, 88), (88, 108, 88), (108, 108, 88)])]
+        ops = []
+        for k, c in enumerate(range(len(cops))):
+            t = cops[c]['targets'][1]
+            ops += [('bl_new',), ('bl_start', k, c), ('bl_flash', k, img(rng.choice([1, t[1] + 3, 4 * t[1]]))), ('bl_close', k)]
+        hs.append(('public-api', {'seed': rng.randrange(500), 'copters': cops, 'ops': ops}))
+    # (c) one loader object, several connections: the reconnect re-reads what it asks for (update / check) and keeps the rest
+    for _ in range(40 if thorough else 10):
+        cops = [small_copter(rng) for _ in range(2)]
+        refresh = rng.choice(['update', 'request', 'none'])
+        key = rng.choice([0xFE, 0xFF])
+        t1 = [x for x in cops[1]['targets'] if x[0] == key][0]
+        ops = [('new',), ('open', 0, 0), ('check', 0), ('request', 0, 0xFE), ('close', 0) if rng.random() < 0.5 else ('check', 0),
+               ('open', 0, 1), ('check', 0)]
+        if refresh != 'none':
+            ops.append((refresh, 0, 0xFE))
+        ops.append(('flash', 0, key, img(rng.choice([1, t1[1] + 1, 2 * t1[1]])), None))
+        hs.append(('reconnect-same-loader', {'seed': rng.randrange(500), 'copters': cops, 'ops': ops}))
+    # (d) faults on the get-info exchange (lost, late, unrelated, truncated replies, timeouts) and cache misses
+    for _ in range(80 if thorough else 20):
+        cops = [small_copter(rng) for _ in range(2)]
+        for c in cops:
+            c['info'] = [info_outcome(rng, c, rng.choice([0xFF, 0xFE])) for _ in range(rng.choice([0, 1, 2, 3, 6, 8]))]
+        ops = [('new',), ('flash', 0, 0xFE, img(3), None), ('update', 0, 0xFE), ('open', 0, 0)]
+        for _ in range(rng.randrange(1, 5)):
+            ops.append(rng.choice([('update', 0, 0xFE), ('update', 0, 0xFF), ('check', 0), ('request', 0, 0xFE), ('request', 0, 0xFF), ('request', 0, 7)]))
+        ops.append(('flash', 0, rng.choice([0xFE, 0xFF]), img(rng.choice([1, 9, 40])), None))
+        ops += [('new',), ('open', 1, 1), ('request', 1, 0xFE), ('flash', 1, 0xFE, img(5), None)]
+        hs.append(('info-faults', {'seed': rng.randrange(500), 'copters': cops, 'ops': ops}))
+    return hs
+
+
+def ghost_reads(h, out):
+    """for every flash op: the copter the loader's cache entry for the flashed target was read from, assuming each
+    loader object has its OWN cache (which is what the property needs) - vs the copter it is connected to"""
+    conn, cached, info = [], [], {}
+    for i, (op, (res, pk)) in enumerate(zip(h['ops'], out)):
+        if op[0] in ('new', 'bl_new'):
+            conn.append(None)
+            cached.append({})
+        elif op[0] == 'open':
+            conn[op[1]] = op[2]
+        elif op[0] in ('close', 'bl_close'):
+            conn[op[1]] = None
+        elif op[0] == 'update' and res == 'true':
+            cached[op[1]][op[2]] = conn[op[1]]
+        elif op[0] == 'check' and res == 'true':
+            cached[op[1]][0xFF] = conn[op[1]]
+        elif op[0] == 'request' and res.startswith('geom:'):
+            cached[op[1]].setdefault(op[2], conn[op[1]])
+        elif op[0] == 'bl_start' and res == 'true':
+            if conn[op[1]] is None:
+                conn[op[1]] = op[2]
+                cached[op[1]][0xFF] = op[2]
+            cached[op[1]].setdefault(0xFE, conn[op[1]])
+        elif op[0] in ('flash', 'bl_flash'):
+            key = op[2] if op[0] == 'flash' else 0xFE
+            info[i] = (conn[op[1]], cached[op[1]].get(key))
+    return info
+
+
+def history_failures(h, out, copters, flashes):
+    """C12 on every flashing of a history: the image must land at the start page reported by the target of THIS
+    connection, nothing outside, nothing beyond that target's flash.  Returns [(key, what, detail, flash index)]"""
+    res_ = []
+    info = ghost_reads(h, out)
+    dirty_seen = {}
+    times = {}
+    for f in flashes:
+        times[(f['copter'], f['key'])] = times.get((f['copter'], f['key']), 0) + 1
+    for f in flashes:
+        if f['copter'] is None or times[(f['copter'], f['key'])] > 1:
+            continue      # a target flashed twice in one history: the final memory does not separate the two runs
+        cop = copters[f['copter']]
+        if f['key'] not in cop.geom:
+            continue
+        ps, bp, fp, sp = cop.geom[f['key']]
+        res, pk = out[f['op']]
+        if res.startswith('err:') and not pk:
+            continue
+        twin = cop.mem[f['key']]
+        seen = dirty_seen.setdefault((f['copter'], f['key']), set())
+
+        class V:           # the part of this target's memory touched by THIS flashing
+            pass
+        v = V()
+        v.flashpg = {q: x for q, x in twin.flashpg.items() if q not in seen}
+        v.flash = twin.flash
+        v.decode = twin.decode
+        link = V()
+        link.sent = pk
+        c = {'key': f['key'], 'addr': f['key'], 'ps': ps, 'bp': bp, 'fp': fp, 'sp': sp, 'override': f['override'], 'image': f['image'], 'script': []}
+        fails = property_failures(c, res, link, v) if in_scope(c) else []
+        seen.update(twin.flashpg)
+        connected, read_from = info.get(f['op'], (None, None))
+        for key, what, detail in fails:
+            stale_own = read_from is not None and read_from != connected
+            k2 = 'stale-geometry-after-reconnect' if stale_own else 'geometry-of-this-connection:' + key
+            res_.append((k2, what + ' (geometry reported by the target of this connection: start page %d, %d flash pages)' % (sp, fp), detail, f['op']))
+    return res_
+
+
+def correspond_histories(ctx):
+    hs = gen_histories(ctx)
+    lines, meta = [], []
+    for kind, h in hs:
+        line, expand, parts, fl, cop, fls = real_hist_reply(h, kind == 'public-api')
+        lines.append(line)
+        meta.append((kind, h, expand, parts, fl))
+        ctx.count('hist:' + kind)
+        for _, r, _p in parts:
+            ctx.count('hist:result:' + r.split(':')[0] + (':' + r.split(':')[1] if r.startswith('err') else ''))
+    replies = ctx.lean(DRIVER, lines)
+    for line, model, (kind, h, expand, parts, fl) in zip(lines, replies, meta):
+        ctx.case({'op': 'history', 'kind': kind, 'copters': [[list(t) for t in c['targets']] for c in h['copters']],
+                  'ops': [[o[0]] + [x if not isinstance(x, (bytes, bytearray)) else 'image[%d]' % len(x) for x in o[1:]] for o in h['ops']][:24]},
+                 ('hist', line))
+        d = compare_hist(model, expand, parts, fl)
+        if d:
+            ctx.disagree('history:' + kind, line[:700], (d + ' || ' + model)[:700], str([(k, r) for k, r, _ in parts])[:700])
+
+
+def search_histories(ctx, seen):
+    for kind, h in gen_histories(ctx):
+        out, copters, flashes = run_real_history(h)
+        ctx.count('search:history:' + kind)
+        for key, what, detail, opi in history_failures(h, out, copters, flashes):
+            if key in seen:
+                ctx.count('witnesses-suppressed')
+                continue
+            seen.add(key)
+            ctx.witness(key, what, {'copters': [{'protocol': c['proto'], 'get_info_script': [fmt_outcome(o) for o in c['info']],
+                                                 'targets(id,page_size,buffer_pages,flash_pages,start_page)': [list(t) for t in c['targets']]} for c in h['copters']],
+                                    'ops': [[o[0]] + [x.hex() if isinstance(x, (bytes, bytearray)) else x for x in o[1:]] for o in h['ops']],
+                                    'failing_op': opi, 'seed': h['seed']},
+                        detail=detail, results=[r for r, _ in out])
